@@ -205,6 +205,9 @@ func checkC10(rep *core.Report) {
 		// ---- R10.3 immutability ----
 		checkTemplateImmutability(prog, r3, c)
 	}
+	// the record a decoder is handed is a copy, but its specifier lists are the cached template's arrays: nothing
+	// outside the parsers writes, copies or appends into them (same rule as R12.10)
+	checkTemplateSpecifiersReadOnly(prog, r3)
 }
 
 // checkReflectionEscape: every call that hands a value containing shards to a reflection-based encoder.
